@@ -161,7 +161,7 @@ package parser
 //@   ensures [C06:algorithm-is-token-text] typeis(result, *model.Field) && csText(unbox(result, *model.Field))
 //@   ensures [C12:new-errors-have-lines] newErrorsHaveLines(self.BinModel, old(len(self.BinModel.SyntaxErrors))) && forall(i, 0, old(len(self.BinModel.SyntaxErrors)), self.BinModel.SyntaxErrors[i] == old(self.BinModel.SyntaxErrors[i]))
 //@   ensures isField(result)
-//@   ensures [C12:D9-inline-fields-submitted] len(self.BinModel.SyntaxErrors) == old(len(self.BinModel.SyntaxErrors)) ==> len(unbox(unbox(result, *model.Field).Attr, *model.ObjectFieldAttribute).RefPacket.Fields) == nall(decl, fieldDefinition)
+//@   ensures [C12:D9-inline-fields-submitted] len(self.BinModel.SyntaxErrors) == old(len(self.BinModel.SyntaxErrors)) ==> len(unbox(unbox(result, *model.Field).Attr, *model.ObjectFieldAttribute).RefPacket.Fields) == nall(child(ctx, inerObjectDeclaration), fieldDefinition)
 //@   loop 0 invariant len(self.BinModel.SyntaxErrors) == old(len(self.BinModel.SyntaxErrors)) ==> len(subFields) == rangeindex + 1
 //@   loop 1 invariant len(subFields) == entry(len(subFields)) && len(self.BinModel.SyntaxErrors) >= entry(len(self.BinModel.SyntaxErrors))
 //@   loop 0 invariant forall(i, 0, len(subFields), fieldOK(subFields[i]))
